@@ -186,6 +186,7 @@ Abs == INSTANCE WriterProp WITH
          discarded <- expiredOut,
          deferred <- IF wpc = "readd" THEN ProjSet(readd) ELSE {},
          accepted <- accepted,
+         MaxCountLater <- MaxCount,
          force <- force
 
 RefAdd     == [][ClientAdd => Abs!PAdd(Proj(queue')[Len(queue')])]_vars
